@@ -129,6 +129,11 @@ while true do local co = coroutine.create(function() local c <close> = closer() 
 while true do local co = coroutine.create(function() local c <close> = closer() error("x") end) emit("survived-resume", pcall(coroutine.resume, co)) end`},
 	{"close-handler-bulk-at-coroutine-close", `local function closer() return setmetatable({}, {__close = function() emit("close-entered") return #("x"):rep(1e7, ",") end}) end
 while true do local co = coroutine.wrap(function() local c <close> = closer() coroutine.yield() error("y") end) co() emit("survived-second", pcall(co)) end`},
+	{"gc-handler-loops-at-context-exit", `setmetatable({}, {__gc = function() emit("gc-entered") while true do end end}) emit("body-done")`},
+	{"gc-handler-loops-at-context-exit-after-error", `setmetatable({}, {__gc = function() emit("gc-entered") while true do end end}) error("body-fails")`},
+	{"gc-handler-loops-at-nested-context-exit-after-error", `local ctx = runtime.callcontext({kill = {cpu = 1e15}}, function() setmetatable({}, {__gc = function() emit("gc-entered") while true do end end}) error("body-fails") end) emit("outlived-nested-context", ctx.status)`},
+	{"gc-handler-bulk-at-context-exit-after-error", `setmetatable({}, {__gc = function() emit("gc-entered") return #("x"):rep(1e7, ",") end}) error({})`},
+	{"close-and-gc-handlers-after-error", `local c <close> = setmetatable({}, {__close = function() setmetatable({}, {__gc = function() while true do end end}) end}) error("body-fails")`},
 	{"gc-handler-loops", `setmetatable({}, {__gc = function() emit("gc-ran") while true do end end}) while true do local t = {} end`},
 	{"nested-callcontext-bigger", `while true do runtime.callcontext({kill = {cpu = 1e15}}, function() while true do end end) emit("outlived-nested-context") end`},
 	{"nested-callcontext-bigger-bulk-request", `while true do runtime.callcontext({kill = {cpu = 1e15}}, function() return #("x"):rep(1e7, ",") end) emit("outlived-nested-context") end`},
